@@ -317,8 +317,8 @@ Proof. apply counts_of_perm. apply Permutation_sym, Permutation_rev. Qed.
 Definition handed_op (x : op) (ob : obs) : list Z :=
   if o_st ob =? 0 then
     match x with
-    | ONewH _ h _ | OAdd _ h | ONewVoidH _ h => [h]
-    | OCreate _ _ _ l => l
+    | ONewH _ h _ | OAdd _ h | ONewVoidH _ h | OAddFail _ h => [h]
+    | OCreate _ _ _ l | OCreateThrow _ _ _ l => l
     | OAddSelf _ => [driver]
     | _ => []
     end
@@ -359,7 +359,7 @@ Ltac norm_goal :=
 Lemma step_spec coro e x : wf_env e -> step_ok coro e x (step coro e x).
 Proof.
   intros W. unfold wf_env in W.
-  destruct x as [o v|o h v|o h|o1 o2|o1 o2|o1 o2 v|o|o|o|o| |o1 o2|o t v l|o|o h|o k|o|o|o1 o2| ]; cbn [step].
+  destruct x as [o v|o h v|o h|o1 o2|o1 o2|o1 o2 v|o|o|o|o| |o1 o2|o t v l|o|o h|o k|o|o|o1 o2|o h|o t v l| ]; cbn [step].
   - (* NewV *)
     destruct (get (objs e) o) eqn:G; [rej W|].
     pose proof (put1_spec (objs e) o (Some (mkSp 0 [] 0 true v)) W (wf_empty _ _ _)) as (PW & PC & PA).
@@ -574,6 +574,27 @@ Proof.
     rewrite G1, G2 in PC, PA. unfold step_ok, spush. cbn [fst snd]. refine (conj PW (conj _ _)).
     + intros y. specialize (PC y). norm_goal. cbn [hso] in PC. rewrite H2, H5 in PC. destruct coro; rewrite ?count_z_nil; lia.
     + norm_goal. cbn [arrs_o] in PA. unfold cadd. cbn [fst snd]. lia.
+  - (* AddFail *)
+    destruct (h <=? 0) eqn:HP; [rej W|].
+    destruct (get (objs e) o) as [s|] eqn:G; [|rej W].
+    destruct (if sp_flag s then sp_count s =? cap s else negb (sp_count s <? inline_count)) eqn:NA.
+    + unfold step_ok, spush. cbn [fst snd]. refine (conj W (conj _ _)).
+      * intros y. unfold handed_op. cbn [o_st o_res]. change (2 =? 0) with false. cbv iota.
+        destruct coro; rewrite ?count_z_nil; lia.
+      * cbn [o_cost fst snd]. lia.
+    + pose proof (sp_add_spec s h (W _ _ G)) as Q. cbn zeta in Q.
+      destruct (sp_add s h) as [s1 c]. cbn [fst snd] in Q. destruct Q as (W1 & H1 & V1 & T1 & A1).
+      pose proof (put1_spec (objs e) o (Some s1) W W1) as (PW & PC & PA).
+      rewrite G in PC, PA. unfold step_ok, spush. cbn [fst snd]. refine (conj PW (conj _ _)).
+      * intros y. specialize (PC y). norm_goal. cbn [hso] in PC. rewrite H1, count_z_app in PC. destruct coro; rewrite ?count_z_nil; lia.
+      * norm_goal. cbn [arrs_o] in PA. lia.
+  - (* CreateThrow *)
+    destruct (negb (forallb (fun h => 0 <? h) l)) eqn:FP; [rej W|].
+    destruct (get (objs e) o) eqn:G; [rej W|].
+    destruct coro; unfold step_ok, spush; cbn [fst snd]; (refine (conj W (conj _ _));
+      [intros y; unfold handed_op, held; cbn [objs queue o_res o_st]; change (0 =? 0) with true; cbv iota;
+       rewrite ?count_z_app, ?count_z_nil; lia
+      |cbn [objs o_cost fst snd]; lia]).
   - rej W.
 Qed.
 
@@ -786,6 +807,12 @@ Definition drv_step_ok (x : op) (ob : obs) : Prop :=
 Lemma has_drv_count s : has_drv s = false -> count_z driver (hs s) = 0%nat.
 Proof. apply count_drv_existsb. Qed.
 
+Lemma count_drv_pos l : forallb (fun h => 0 <? h) l = true -> count_z driver l = 0%nat.
+Proof.
+  induction l as [|x l IH]; intros H; [reflexivity|]. cbn [forallb] in H. apply andb_true_iff in H as [A B].
+  rewrite count_z_cons, (IH B). unfold driver. destruct (0 =? x) eqn:E; [lia|reflexivity].
+Qed.
+
 Lemma step_drv coro e x : wf_env e -> drv_step_ok x (snd (step coro e x)).
 Proof.
   intros W. unfold wf_env in W. unfold drv_step_ok.
@@ -831,6 +858,10 @@ Proof.
       pose proof (await_suspend_spec (queue e) s (W _ _ G) NZ) as Q.
       destruct (await_suspend (queue e) s) as [[[[[s2 q'] r] c] pu] po]. destruct Q as (_ & _ & _ & _ & T).
       cbn [snd o_st o_res]. exact T.
+  - (* CreateThrow *)
+    destruct (negb (forallb (fun h => 0 <? h) l)) eqn:FP; [reflexivity|]. apply negb_false_iff in FP.
+    destruct (get (objs e) o); [reflexivity|].
+    destruct coro; cbn [snd o_res]; [reflexivity|]. apply count_drv_pos. exact FP.
 Qed.
 
 (* the awaiter's own handle is in at most one place and never waits in the ready queue while the awaiter runs *)
@@ -839,15 +870,10 @@ Definition drv_inv (e : env) : Prop := (count_z driver (held e) <= 1)%nat /\ cou
 Lemma hs_le_held l o s y : get l o = Some s -> (count_z y (hs s) <= count_z y (held_objs l))%nat.
 Proof. intros G. pose proof (held_put y l o None) as P. rewrite G in P. cbn [hso] in P. rewrite count_z_nil in P. lia. Qed.
 
-Lemma count_drv_pos l : forallb (fun h => 0 <? h) l = true -> count_z driver l = 0%nat.
-Proof.
-  induction l as [|x l IH]; intros H; [reflexivity|]. cbn [forallb] in H. apply andb_true_iff in H as [A B].
-  rewrite count_z_cons, (IH B). unfold driver. destruct (0 =? x) eqn:E; [lia|reflexivity].
-Qed.
 
 Definition plain (x : op) : bool :=
   match x with
-  | OClear _ | ODestroy _ | OAwait _ | OAwaitL _ | OFlush | OAddSelf _ => false
+  | OClear _ | ODestroy _ | OAwait _ | OAwaitL _ | OFlush | OAddSelf _ | OCreateThrow _ _ _ _ => false
   | _ => true
   end.
 
@@ -941,6 +967,14 @@ Proof.
     revert C R. unfold handed_op, spush. destruct (sp_add s driver). cbn [fst snd o_st o_res ok_obs queue upd].
     change (0 =? 0) with true. cbv iota. rewrite ?count_z_nil. intros C R.
     assert (count_z driver [driver] = 1%nat) as ONE by reflexivity. split; [lia|exact D2].
+  - (* CreateThrow *)
+    destruct (negb (forallb (fun h => 0 <? h) l)) eqn:FP; [cbn [fst]; split; assumption|]. apply negb_false_iff in FP.
+    apply count_drv_pos in FP.
+    destruct (get (objs e) o); [cbn [fst]; split; assumption|].
+    revert C R. unfold handed_op, spush.
+    destruct coro; cbn [fst snd o_st o_res queue objs]; change (0 =? 0) with true; cbv iota; rewrite ?count_z_nil; intros C R.
+    + unfold held in *. cbn [objs queue] in *. rewrite ?count_z_app in *. split; lia.
+    + unfold held in *. cbn [objs queue] in *. rewrite ?count_z_app in *. split; lia.
 Qed.
 
 Fixpoint drv_run_ok (ops : list op) (os : list obs) : Prop :=
@@ -1016,7 +1050,7 @@ Proof. unfold vof. congruence. Qed.
 Lemma step_vals coro e x vs : wf_env e -> vrel vs (objs e) -> vstep_ok vs x e (step coro e x).
 Proof.
   intros W R. unfold wf_env in W. unfold vstep_ok.
-  destruct x as [o v|o h v|o h|o1 o2|o1 o2|o1 o2 v|o|o|o|o| |o1 o2|o t v l|o|o h|o k|o|o|o1 o2| ]; cbn [step vstep].
+  destruct x as [o v|o h v|o h|o1 o2|o1 o2|o1 o2 v|o|o|o|o| |o1 o2|o t v l|o|o h|o k|o|o|o1 o2|o h|o t v l| ]; cbn [step vstep].
   - destruct (get (objs e) o) eqn:G; [reflexivity|]. cbn [fst snd o_st ok_obs o_val objs upd]. split; [|reflexivity].
     apply (vrel_put vs (objs e) o (Some (mkSp 0 [] 0 true v)) R).
   - destruct (h <=? 0); [reflexivity|]. destruct (get (objs e) o) eqn:G; [reflexivity|].
@@ -1139,6 +1173,15 @@ Proof.
       * apply (vrel_same _ _ _ b); [apply (vrel_same _ _ _ a); auto using vof_eq| rewrite get_put_other by exact E; exact G2|].
         apply vof_eq; cbn [typed val] in *; congruence.
       * rewrite (vrel_vget _ _ _ _ R G1). exact V1.
+  - destruct (h <=? 0); [reflexivity|]. destruct (get (objs e) o) as [s|] eqn:G; [|reflexivity].
+    destruct (if sp_flag s then sp_count s =? cap s else negb (sp_count s <? inline_count)); [reflexivity|].
+    pose proof (sp_add_spec s h (W _ _ G)) as Q. cbn zeta in Q. destruct (sp_add s h) as [s1 c].
+    cbn [fst snd] in Q. destruct Q as (_ & _ & V1 & T1 & _).
+    cbn [fst snd o_st ok_obs o_val objs upd]. split.
+    + apply (vrel_same _ _ _ s); auto using vof_eq.
+    + rewrite (vrel_vget _ _ _ _ R G). exact V1.
+  - destruct (negb (forallb (fun h => 0 <? h) l)); [reflexivity|]. destruct (get (objs e) o) eqn:G; [reflexivity|].
+    destruct coro; cbn [fst snd o_st o_val objs]; (split; [exact R|reflexivity]).
   - reflexivity.
 Qed.
 
@@ -1186,6 +1229,9 @@ Proof.
   - destruct (negb (forallb (fun h => 0 <? h) l)) eqn:FP; [discriminate|]. apply negb_false_iff in FP.
     symmetry. apply filter_not_drv_pos. exact FP.
   - destruct (h <=? 0) eqn:HP; [discriminate|]. symmetry. apply (filter_not_drv_pos [h]). cbn [forallb]. lia.
+  - destruct (h <=? 0) eqn:HP; [discriminate|]. symmetry. apply (filter_not_drv_pos [h]). cbn [forallb]. lia.
+  - destruct (negb (forallb (fun h => 0 <? h) l)) eqn:FP; [discriminate|]. apply negb_false_iff in FP.
+    symmetry. apply filter_not_drv_pos. exact FP.
 Qed.
 
 Lemma filter_app {A} (f : A -> bool) a b : filter f (a ++ b) = filter f a ++ filter f b.
@@ -1259,4 +1305,25 @@ Theorem values_as_supplied coro ops :
   vals_ok [] ops (map encode_obs (fst (run_from coro env0 ops))) = true.
 Proof.
   apply run_vals; [exact wf_env0|]. intros i. unfold env0, get. cbn. destruct i; reflexivity.
+Qed.
+
+(* an add() whose allocation throws leaves everything as it was; the handle was not handed in (the caller keeps it) *)
+Theorem failed_add_changes_nothing coro e o h s :
+  get (objs e) o = Some s -> 0 < h ->
+  (if sp_flag s then sp_count s =? cap s else negb (sp_count s <? inline_count)) = true ->
+  let r := step coro e (OAddFail o h) in
+  fst r = e /\ o_st (snd r) = 2 /\ o_size (snd r) = sp_count s /\ handed_op (OAddFail o h) (snd r) = [] /\ o_res (snd r) = [].
+Proof.
+  intros G HP NA. cbn [step]. rewrite G, NA. destruct (h <=? 0) eqn:E; [lia|]. cbn [fst snd]. repeat split.
+Qed.
+
+(* a create_suspend_point whose callback throws loses nothing: what was queued stays queued, what the callback readied
+   is queued behind it (coroutine mode) or resumed while the exception unwinds (normal mode) *)
+Theorem throwing_create_loses_nothing coro e o t v l :
+  forallb (fun h => 0 <? h) l = true -> get (objs e) o = None ->
+  let r := step coro e (OCreateThrow o t v l) in
+  objs (fst r) = objs e /\ o_st (snd r) = 0 /\
+  if coro then queue (fst r) = queue e ++ l /\ o_res (snd r) = [] else queue (fst r) = queue e /\ o_res (snd r) = l.
+Proof.
+  intros FP G. cbn [step]. rewrite FP, G. cbn [negb]. destruct coro; cbn [fst snd objs queue o_st o_res]; repeat split.
 Qed.
